@@ -379,6 +379,13 @@ func newClientSession(sessionID int, epochID, randID uint64, config *SessionMana
 			return nil, ErrFileNameTooLong
 		}
 	}
+	if config.MemMapType == MemMapTypeMemFd {
+		// memfd names are limited as well: a prefix that only fits without the epoch information would be accepted
+		// now and make every later hot restart (and every rebuild after it) fail in memfd_create
+		if len(memfdCreateName)+len(conf.ShareMemoryPathPrefix)+epochInfoMaxLen+queueInfoMaxLen > memfdNameMaxLen {
+			return nil, ErrFileNameTooLong
+		}
+	}
 	if epochID > 0 {
 		conf.ShareMemoryPathPrefix += "_epoch_" + strconv.FormatUint(epochID, 10) + "_" + strconv.FormatUint(randID, 10)
 	}
